@@ -30,6 +30,7 @@
   the pinned event lists; a revert of either repair breaks section 2.
 -/
 import SonicSpec.Proofs.RWThm
+import SonicSpec.Proofs.RWMulti
 import SonicSpec.Model.RWParse
 import SonicSpec.Generated.Access
 namespace SonicSpec.Props.C16
@@ -228,6 +229,161 @@ theorem parseRaw_lock_branch :
     facts.lookup "assign" = some [.wr .l, .wr .p, .astore .t] := by
   decide +kernel
 
+/-! ## 5. the multi-node object: parent + children, any depth -/
+
+/-- thread programs on every node: `pss[n][i]` = program and oracle of thread `i` on node `n` -/
+def MDisciplined (pf : Bool) (pss : List (List (Prog × List Bool))) : Prop := ∀ ps ∈ pss, Disciplined pf ps
+
+/-- F (composite).  No data race on any node of the multi-node object, whatever the tree shape
+    (`topo`), the number of nodes and threads, and the schedule of (thread, node) steps - readers
+    descending parent → child while others convert either level. -/
+theorem composite_no_data_race (pf : Bool) (topo : Nat → Nat) (pss : List (List (Prog × List Bool)))
+    (hs : MDisciplined pf pss) (sched : List (Nat × Nat)) :
+    ∀ (n : Nat) (s : State), (mrun pf topo (MState.init pss) sched).nodes[n]? = some s → s.sh.race = false :=
+  fun n s hn => (inv_composite topo pss hs sched n s hn).1.norace
+
+/-- F (composite).  No torn read on any node. -/
+theorem composite_no_torn_read (pf : Bool) (topo : Nat → Nat) (pss : List (List (Prog × List Bool)))
+    (hs : MDisciplined pf pss) (sched : List (Nat × Nat)) :
+    ∀ (n : Nat) (s : State), (mrun pf topo (MState.init pss) sched).nodes[n]? = some s →
+      ∀ th ∈ s.ths, th.torn = false :=
+  fun n s hn _ hth => (inv_composite topo pss hs sched n s hn).not_torn hth
+
+/-- F (composite).  Every snapshot read on any node is a single-threaded one (the node's raw text
+    or its parsed representation). -/
+theorem composite_readers_agree_with_sequential (pf : Bool) (topo : Nat → Nat)
+    (pss : List (List (Prog × List Bool))) (hs : MDisciplined pf pss) (sched : List (Nat × Nat)) :
+    ∀ (n : Nat) (s : State), (mrun pf topo (MState.init pss) sched).nodes[n]? = some s →
+      ∀ th ∈ s.ths, ∀ v g a b, th.tv = some (v, g) → th.lg = some a → th.pg = some b →
+        (v, a, b) = seqRaw ∨ (v, a, b) = seqParsed := by
+  intro n s hn th hth v g a b htv hl hp
+  rcases (inv_composite topo pss hs sched n s hn).snapshot hth htv hl hp with ⟨h1, h2, h3⟩ | ⟨h1, h2, h3⟩
+  · left; rw [h1, h2, h3]; rfl
+  · right; rw [h1, h2, h3]; rfl
+
+/-- F (composite, PUBLICATION).  Whenever a thread `i` may act on a non-root node `n` - it has read
+    a child slot of the parent after the parent's release-store - the parent is published (`t`
+    non-raw) and EVERY write another thread made to the memory behind the parent's `p` (the
+    creation of `n` and its siblings under the parent's write lock: container, key index, slots,
+    the children's initial fields and mutexes) is in `i`'s happens-before set.  So each child
+    starts for each of its readers exactly like `State.init`: the composition lemma of wave 2 as a
+    theorem about the actual multi-node state. -/
+theorem composite_child_published_before_entered (pf : Bool) (topo : Nat → Nat)
+    (pss : List (List (Prog × List Bool))) (hs : MDisciplined pf pss) (sched : List (Nat × Nat))
+    (i n : Nat) (hn0 : n ≠ 0)
+    (henter : mayEnter topo (mrun pf topo (MState.init pss) sched) i n = true) :
+    ∃ par, (mrun pf topo (MState.init pss) sched).nodes[topo n]? = some par ∧ par.sh.t ≠ .raw ∧
+      ∀ th, par.ths[i]? = some th →
+        ∀ b ∈ par.sh.hist, b.f = .c → b.wr = true → b.tid ≠ i → b.id ∈ th.hb := by
+  simp only [mayEnter, Bool.or_eq_true, beq_iff_eq] at henter
+  rcases henter with h | h
+  · exact absurd h hn0
+  · cases hp : (mrun pf topo (MState.init pss) sched).nodes[topo n]? with
+    | none => rw [hp] at h; cases h
+    | some par =>
+      rw [hp] at h
+      have hI := inv_composite topo pss hs sched (topo n) par hp
+      refine ⟨par, rfl, ?_, ?_⟩
+      · cases hl : par.ths[i]? with
+        | some th => exact (creation_in_hb hI h hl).1
+        | none =>
+          -- without a thread record there is no descent read either; use the store fact directly
+          obtain ⟨l1, acc, l2, st, hh, _, _, _, hst2, hstT⟩ := descended_split h
+          intro ht
+          have := hI.1.rawNoStore ht st (by rw [hh]; exact List.mem_append_right _ (List.mem_cons_of_mem _ hst2))
+          have hstT' : (st.f == .t && st.wr && st.atomic) = true := hstT
+          rw [this] at hstT'; cases hstT'
+      · intro th hth
+        exact (creation_in_hb hI h hth).2
+
+/-- F (composite).  Once a node is published nothing writes its fields or the memory behind its
+    `p` (children container, key index, child slots) any more, whoever steps wherever. -/
+theorem composite_no_write_after_publication (pf : Bool) (topo : Nat → Nat)
+    (pss : List (List (Prog × List Bool))) (hs : MDisciplined pf pss) (sched : List (Nat × Nat))
+    (x : Nat × Nat) (n : Nat) (s s' : State)
+    (hn : (mrun pf topo (MState.init pss) sched).nodes[n]? = some s) (ht : s.sh.t ≠ .raw)
+    (hn' : (mstep pf topo (mrun pf topo (MState.init pss) sched) x).nodes[n]? = some s') :
+    s'.sh.hist.filter (·.wr) = s.sh.hist.filter (·.wr) := by
+  have hI := inv_composite topo pss hs sched n s hn
+  unfold mstep at hn'
+  cases hx : (mrun pf topo (MState.init pss) sched).nodes[x.2]? with
+  | none => rw [hx] at hn'; simp only at hn'; rw [hn] at hn'; cases hn'; rfl
+  | some sx =>
+    rw [hx] at hn'
+    simp only at hn'
+    split at hn'
+    · simp only at hn'
+      rw [getElem?_set_ite hx] at hn'
+      by_cases hxn : x.2 = n
+      · subst hxn
+        simp only [if_true] at hn'
+        cases hn'
+        rw [hn] at hx; cases hx
+        exact writes_only_while_raw hI ht x.1
+      · simp only [hxn, if_false] at hn'
+        rw [hn] at hn'; cases hn'; rfl
+    · rw [hn] at hn'; cases hn'; rfl
+
+/-- a thread that has not descended cannot move on a non-root node -/
+theorem composite_blocked_before_descent (pf : Bool) (topo : Nat → Nat) (ms : MState) (i n : Nat)
+    (h : mayEnter topo ms i n = false) : mstep pf topo ms (i, n) = ms := by
+  unfold mstep
+  cases hs : ms.nodes[n]? with
+  | none => rfl
+  | some s => simp only [h]; rfl
+
+/-- F (composite, on the current tree): any tree of nodes, on every node any mix of ALL
+    documented reads, all documents, any number of goroutines, all schedules -/
+theorem composite_all_reads_all_documents (pf : Bool) (topo : Nat → Nat)
+    (fnss : List (List (String × List Bool))) (hf : ∀ fns ∈ fnss, ∀ f ∈ fns, f.1 ∈ documentedReads)
+    (sched : List (Nat × Nat)) :
+    let pss := fnss.map fun fns => fns.map fun f => ((progOf facts f.1).getD .done, f.2)
+    ∀ (n : Nat) (s : State), (mrun pf topo (MState.init pss) sched).nodes[n]? = some s →
+      s.sh.race = false ∧ (∀ th ∈ s.ths, th.torn = false) ∧
+      (∀ th ∈ s.ths, ∀ v g a b, th.tv = some (v, g) → th.lg = some a → th.pg = some b →
+        (v, a, b) = seqRaw ∨ (v, a, b) = seqParsed) := by
+  intro pss n s hn
+  have hs : MDisciplined pf pss := by
+    intro ps hps p hp
+    obtain ⟨fns, hfns, rfl⟩ := List.mem_map.mp hps
+    obtain ⟨f, hfm, rfl⟩ := List.mem_map.mp hp
+    have hall : documentedReads.all (fun fn => disciplinedAt pf facts fn) = true := by
+      cases pf
+      · exact all_documented_reads_disciplined.1
+      · exact all_documented_reads_disciplined.2
+    have hd := List.all_eq_true.mp hall f.1 (hf fns hfns f hfm)
+    simp only [disciplinedAt] at hd
+    cases hq : progOf facts f.1 with
+    | none => rw [hq] at hd; cases hd
+    | some P => rw [hq] at hd; simpa using hd
+  exact ⟨composite_no_data_race pf topo pss hs sched n s hn, composite_no_torn_read pf topo pss hs sched n s hn,
+         composite_readers_agree_with_sequential pf topo pss hs sched n s hn⟩
+
+/-! ### the key index: part of the memory behind `p`, read-only after publication -/
+
+/-- the hash index over an object's keys is built EAGERLY by the constructor the parser calls
+    (`newObject`: BuildIndex when there are more than _Threshold_Index pairs), i.e. inside the
+    conversion, under the write lock, before the release-store; the lookups the documented reads
+    use (`skipKey` → `linkedPairs.Get` → `At`, `Len`, …) contain no write at all and call only each
+    other.  (A lazily built index - seeds C16-lazy-index-in-get / C16b-lazy-keyindex-on-first-get -
+    breaks this theorem and `all_documented_reads_disciplined`.) -/
+theorem key_index_built_at_construction_read_only_after :
+    facts.lookup "newObject" =
+      some [.rd .c, .ifB .opaque false, .call "linkedPairs.BuildIndex" .none, .ifE, .call "linkedPairs.Len" .none, .ret] ∧
+    ["linkedPairs.Get", "linkedPairs.At", "linkedPairs.Len", "linkedPairs.Cap",
+     "linkedNodes.At", "linkedNodes.Len", "linkedNodes.Cap"].all (fun fn =>
+      match facts.lookup fn with
+      | some evs => evs.all fun e =>
+          match e with
+          | .wr _ | .wrAll | .astore _ | .parse | .escape _ => false
+          | .call g _ => g == "linkedPairs.At" || g == "linkedNodes.At"
+          | _ => true
+      | none => false) = true ∧
+    (facts.lookup "skipKey").map (fun evs => evs.filter fun e =>
+        match e with | .call g _ => g.startsWith "linkedPairs." | .wr _ => true | _ => false) =
+      some [.call "linkedPairs.Get" .none] := by
+  decide +kernel
+
 /-! ## 4. PRE-FIX REGRESSION: the pinned snapshot (before 45c02e9 / 7073139) -/
 
 /-- ast/encode.go:94 as pinned: `if self.isRaw() { return rt.Str2Mem(self.toString()), nil }` -/
@@ -338,5 +494,41 @@ example :
 example : disciplined (override facts "linkedPairs.Get"
     [.rd .c, .ifB .opaque false, .call "linkedPairs.BuildIndex" .none, .ifE, .rd .c, .ret]) "Get" = false := by
   decide +kernel
+
+-- the second key-index seed (skipKey builds the index on the first lookup) is rejected as well
+example : disciplined (override facts "skipKey"
+    [.call "len" .none, .rd .p, .rd .c, .ifB .opaque false, .call "linkedPairs.BuildIndex" .none, .ifE,
+     .call "linkedPairs.Get" .none, .ret]) "Get" = false := by
+  decide +kernel
+
+/-! two levels, two readers at different levels: node 0 = parent, node 1 = child.  Thread 1 runs
+    Index on the parent (converts it, descends), then checkRaw on the child (converts it); thread 0
+    runs Get on the parent and, once it has descended, Raw on the child - concurrently with
+    thread 1's conversion of the child. -/
+def demoPss : List (List (Prog × List Bool)) :=
+  [[((progOf facts "Get").getD .abort, [false, true, false, true]),
+    ((progOf facts "Index").getD .abort, [false, false, true, true])],
+   [((progOf facts "Raw").getD .abort, []), ((progOf facts "checkRaw").getD .abort, [])]]
+def demoTopo : Nat → Nat := fun _ => 0
+def demoSched1 : List (Nat × Nat) := List.replicate 5 (0, 1) ++ List.replicate 120 (1, 0)
+def demoSched2 : List (Nat × Nat) :=
+  demoSched1 ++ List.replicate 60 (0, 0) ++ (List.replicate 80 [(1, 1), (0, 1)]).flatten
+
+set_option maxRecDepth 100000 in
+-- before anybody has descended nobody moves on the child; after thread 1's Index on the parent
+-- thread 1 may enter the child, thread 0 may not (yet)
+example :
+    let ms := mrun false demoTopo (MState.init demoPss) demoSched1
+    (ms.nodes.map fun s => (s.sh.t, s.sh.hist.length)) = [(.parsed, 19), (.raw, 0)] ∧
+    mayEnter demoTopo ms 1 1 = true ∧ mayEnter demoTopo ms 0 1 = false := by decide +kernel
+
+set_option maxRecDepth 100000 in
+-- both levels converted, both readers finished on both nodes with single-threaded snapshots, no race
+example :
+    let ms := mrun false demoTopo (MState.init demoPss) demoSched2
+    (ms.nodes.map fun s => (s.sh.race, s.sh.t)) = [(false, .parsed), (false, .parsed)] ∧
+    (ms.nodes.map fun s => s.ths.map fun th => (th.torn, decide (th.prog = .done))) =
+      [[(false, true), (false, true)], [(false, true), (false, true)]] ∧
+    mayEnter demoTopo ms 0 1 = true := by decide +kernel
 
 end SonicSpec.Props.C16
